@@ -8,6 +8,7 @@ top-level calls and for templates invoked by name from another template.
 Big-step, fuel-indexed (every recursive call consumes fuel), state-passing: the state
 survives exceptions, which is what the stack-restoration property (C08) is about.
 -/
+import DTML.Batch
 namespace DTML.Render
 
 abbrev Text := List Char
@@ -58,6 +59,26 @@ structure InOpts where
   skipUnauth : Bool := false
   deriving Repr, Inhabited
 
+/-- literal batch parameters of a dtml-in (0 = not given, as `int_param` reads them) -/
+structure BatchP where
+  start : Int := 0
+  end_ : Int := 0
+  size : Int := 0
+  orphan : Int := 0
+  overlap : Int := 0
+  /-- the `previous` / `next` attributes: render the section once, for the neighbouring batch -/
+  previous : Bool := false
+  next : Bool := false
+  deriving Repr, Inhabited
+
+/-- the options of dtml-in that rearrange or cut the sequence: `sort=key` (one key, default comparison,
+ascending), `reverse`, and the batch parameters -/
+structure InXOpts where
+  sortKey : Option Text := none
+  reverse : Bool := false
+  batch : Option BatchP := none
+  deriving Repr, Inhabited
+
 inductive Blk where
   | lit (s : Text)
   | var (src : Src) (hq : Bool) (missing : Option Text) (null : Option Text)
@@ -65,6 +86,8 @@ inductive Blk where
   | unless_ (src : Src) (body : List Blk)
   | call (src : Src)
   | in_ (src : Src) (o : InOpts) (body : List Blk) (els : Option (List Blk))
+  /-- dtml-in with sort / reverse / batch options (`renderwb`, or `renderwob` over the rearranged sequence) -/
+  | inx_ (src : Src) (o : InOpts) (x : InXOpts) (body : List Blk) (els : Option (List Blk))
   | with_ (src : Src) (mapping : Bool) (only : Bool) (body : List Blk)
   | let_ (binds : List (Text × Src)) (body : List Blk)
   | try_ (body : List Blk) (handlers : List (Text × List Blk)) (els : Option (List Blk))
@@ -82,6 +105,10 @@ structure SeqVars where
   ended : Bool := false        -- sequence-end
   mapping : Bool := false
   prefix_ : Option Text := none
+  /-- further entries of the variables' own dictionary (`data`): what a batched rendering stores there -/
+  extra : List (Text × Val) := []
+  /-- no `sequence-index` entry yet: the `previous` / `next` renderings of a batch, which iterate over nothing -/
+  noIndex : Bool := false
   deriving Repr, Inhabited
 
 inductive Frame where
@@ -316,6 +343,59 @@ def seqLookup (sv : SeqVars) (key : Text) : SeqRes :=
      | none => .missing)
   | none => .missing
 
+/-- replace / add an entry of an association list -/
+def setKV (kvs : List (Text × Val)) (k : Text) (v : Val) : List (Text × Val) :=
+  kvs.filter (·.1 != k) ++ [(k, v)]
+
+/-- `Add_with_prefix.__setitem__`: the name under which a batch variable is stored a second time when the tag has
+a `prefix`: `sequence-step-size` ↦ `p_step_size`, any other name `n` ↦ `p_n` -/
+def prefixAlias (p : Text) (name : Text) : Text :=
+  match stripPrefix "sequence-".toList name with
+  | some rest => p ++ ['_'] ++ rest.map (fun c => if c = '-' then '_' else c)
+  | none => p ++ ['_'] ++ name
+
+/-- `pkw[name] = v` -/
+def SeqVars.set (sv : SeqVars) (name : Text) (v : Val) : SeqVars :=
+  let e := setKV sv.extra name v
+  { sv with extra := match sv.prefix_ with
+      | some p => setKV e (prefixAlias p name) v
+      | none => e }
+
+/-- `X-number` for a stored `X-index` (`sequence_variables.__getitem__` applies the index renderings to every
+`…-index` entry of its dictionary; modelled for `number`) -/
+def seqDerived (sv : SeqVars) (key : Text) : Option Val :=
+  let suffix := "-number".toList
+  if suffix.length < key.length && key.drop (key.length - suffix.length) == suffix then
+    match sv.extra.lookup (key.take (key.length - suffix.length) ++ "-index".toList) with
+    | some (.int i) => some (.int (i + 1))
+    | _ => none
+  else none
+
+/-- `sequence_variables.__getitem__`: the dictionary first, then the computed variables -/
+def seqGet (sv : SeqVars) (key : Text) : SeqRes :=
+  match sv.extra.lookup key with
+  | some v => .val v
+  | none =>
+    match seqDerived sv key with
+    | some v => .val v
+    | none =>
+      -- the dictionary starts with previous-sequence = next-sequence = 0 (stored under the prefixed names too)
+      let flagNames := ["previous-sequence".toList, "next-sequence".toList]
+      let aliased := match sv.prefix_ with
+        | some p => flagNames.map (prefixAlias p)
+        | none => []
+      if flagNames.contains key || aliased.contains key then .val (.int 0)
+      else if sv.noIndex then
+        -- without an index only the start / end flags (and with them first-x) can be answered
+        let isName (n : String) : Bool :=
+          key == ("sequence-" ++ n).toList || (match sv.prefix_ with | some p => key == p ++ ['_'] ++ n.toList | none => false)
+        if isName "start" then .val (.int (if sv.started then 1 else 0))
+        else if isName "end" then .val (.int (if sv.ended then 1 else 0))
+        else if (stripPrefix "first-".toList key).isSome && sv.started then .val (.int 1)
+        else if (stripPrefix "last-".toList key).isSome && sv.ended then .val (.int 1)
+        else .missing
+      else seqLookup sv key
+
 /-- `frame[key]` -/
 def frameGet (env : Env) (f : Frame) (key : Text) (tr : List Event) : Found × List Event :=
   match f with
@@ -325,7 +405,7 @@ def frameGet (env : Env) (f : Frame) (key : Text) (tr : List Event) : Found × L
      | some v => (.val v f, tr)
      | none => (.missing, tr))
   | .seq sv =>
-    (match seqLookup sv key with
+    (match seqGet sv key with
      | .val v => (.val v f, tr)
      | .missing => (.missing, tr)
      | .raise e => (.raise e, tr))
@@ -439,6 +519,167 @@ def matchBase (env : Env) : Nat → Text → Text → Bool
 def findHandler (env : Env) (handlers : List (Text × List Blk)) (cls : Text) : Option (List Blk) :=
   (handlers.find? (fun h => h.1 == cls || h.1.isEmpty || matchBase env 16 cls h.1)).map (·.2)
 
+/-! ### dtml-in: sort, reverse, batch window -/
+
+/-- a sort key as `sort_sequence` compares it -/
+inductive SKey where
+  | smallest               -- None, a missing attribute / key, a callable that raised
+  | int (i : Int)
+  | str (s : Text)
+  | bad                    -- containers, objects …: their comparison is outside the model
+  deriving Repr, DecidableEq, Inhabited
+
+/-- `a <= b` on strings: lexicographic by code point -/
+def textLe : Text → Text → Bool
+  | [], _ => true
+  | _ :: _, [] => false
+  | a :: as, b :: bs => if a.toNat < b.toNat then true else if b.toNat < a.toNat then false else textLe as bs
+
+def SKey.le : SKey → SKey → Bool
+  | .smallest, _ => true
+  | _, .smallest => false
+  | .int a, .int b => decide (a ≤ b)
+  | .str a, .str b => textLe a b
+  | _, _ => true
+
+def keyOfVal : Val → SKey
+  | .none => .smallest
+  | .int i => .int i
+  | .bool b => .int (if b then 1 else 0)
+  | .str s => .str s
+  | _ => .bad
+
+/-- the keys can be compared with each other: no container / object keys, and not numbers with strings -/
+def sortable (ks : List SKey) : Bool :=
+  !ks.contains .bad &&
+  !(ks.any (fun k => match k with | .int _ => true | _ => false) &&
+    ks.any (fun k => match k with | .str _ => true | _ => false))
+
+def callEvent (id : Nat) (st : St) : St := { st with trace := st.trace ++ [.call id], calls := st.calls + 1 }
+
+/-- the sort key of one element: `getattr(v, key, None)` / `v.get(key)` — a plain read, not through the guard —
+of the element (of the value of a (key, value) pair); a callable is called, and counts as smallest when it raises -/
+def sortKeyOf (env : Env) (mapping : Bool) (key : Text) (item : Val) (st : St) : Res SKey × St :=
+  let v := match item with
+    | .tuple [_, v] => v
+    | v => v
+  let raw : Res Val :=
+    if mapping then
+      (match v with
+       | .dict kvs => .ok ((kvs.lookup key).getD .none)
+       | _ => .raise ⟨"AttributeError".toList, "get".toList⟩)
+    else
+      .ok (match v with
+        | .obj _ attrs => (attrs.lookup key).getD .none
+        | _ => .none)
+  match raw with
+  | .ok (.fn id r) =>
+    -- `k = k()`: a namespace callable (never a probe); an exception from it makes the key `_Smallest`
+    let st' := callEvent id st
+    if env.faults.contains st.calls then (.ok .smallest, st') else (.ok (keyOfVal r), st')
+  | .ok v => (.ok (keyOfVal v), st)
+  | .raise e => (.raise e, st)
+  | .ret v => (.ret v, st)
+  | .oom => (.oom, st)
+
+/-- decorate: the key of every element, in order -/
+def sortKeys (env : Env) (mapping : Bool) (key : Text) : List Val → St → Res (List (SKey × Val)) × St
+  | [], st => (.ok [], st)
+  | x :: xs, st =>
+    match sortKeyOf env mapping key x st with
+    | (.ok k, st') =>
+      (match sortKeys env mapping key xs st' with
+       | (.ok r, st'') => (.ok ((k, x) :: r), st'')
+       | r => r)
+    | (.raise e, st') => (.raise e, st')
+    | (.ret v, st') => (.ret v, st')
+    | (.oom, st') => (.oom, st')
+
+/-- `sort_sequence` (one key, default comparison, ascending): a stable sort by key -/
+def sortPart (env : Env) (o : InOpts) (x : InXOpts) (items : List Val) (st : St) : Res (List Val) × St :=
+  match x.sortKey with
+  | none => (.ok items, st)
+  | some k =>
+    (match sortKeys env o.mapping k items st with
+     | (.ok dec, st') =>
+       if decide (dec.length ≥ 2) && !sortable (dec.map (·.1)) then (.raise ⟨"TypeError".toList, []⟩, st')
+       else (.ok ((dec.mergeSort (fun a b => SKey.le a.1 b.1)).map (·.2)), st')
+     | (.raise e, st') => (.raise e, st')
+     | (.ret v, st') => (.ret v, st')
+     | (.oom, st') => (.oom, st'))
+
+/-- `sort_sequence` followed by `reverse_sequence` -/
+def arrange (env : Env) (o : InOpts) (x : InXOpts) (items : List Val) (st : St) : Res (List Val) × St :=
+  match sortPart env o x items st with
+  | (.ok xs, st') => (.ok (if x.reverse then xs.reverse else xs), st')
+  | r => r
+
+/-- the cache of a sequence found by name: `{name: sequence}` below the sequence variables -/
+def cacheOf (src : Src) (v : Val) : List Frame :=
+  match src with
+  | .name n => [Frame.dict [(n, v)]]
+  | .expr _ => []
+
+/-- the window and parameters of a batched rendering: `first` = start - 1 and `stop` = end (0-based, exclusive) -/
+structure BWin where
+  first : Nat
+  stop : Nat
+  sz : Int
+  orphan : Int
+  overlap : Int
+  deriving Repr, Inhabited
+
+def bwinOf (b : BatchP) (len : Nat) : BWin :=
+  let w := Batch.window b.start b.end_ b.size b.orphan ⟨len, false⟩
+  { first := (w.1 - 1).toNat, stop := w.2.1.toNat, sz := w.2.2, orphan := b.orphan, overlap := b.overlap }
+
+def txt (s : String) : Text := s.toList
+
+/-- what `renderwb` stores before anything is rendered -/
+def batchInit (sv : SeqVars) (w : BWin) : SeqVars :=
+  (((((((((sv.set (txt "previous-sequence") (.int 0)).set (txt "next-sequence") (.int 0)).set
+    (txt "sequence-step-size") (.int w.sz)).set
+    (txt "sequence-step-overlap") (.int w.overlap)).set
+    (txt "sequence-step-start") (.int (w.first + 1))).set
+    (txt "sequence-step-end") (.int w.stop)).set
+    (txt "sequence-step-start-index") (.int w.first)).set
+    (txt "sequence-step-end-index") (.int (Int.ofNat w.stop - 1))).set
+    (txt "sequence-step-orphan") (.int w.orphan))
+
+/-- the previous batch: `opt(0, first + overlap, size, orphan, sequence)` -/
+def prevInfo (sv : SeqVars) (w : BWin) (flag : Bool) : SeqVars :=
+  let p := Batch.opt 0 (w.first + w.overlap) w.sz w.orphan ⟨sv.items.length, false⟩
+  let sv := if flag then sv.set (txt "previous-sequence") (.int 1) else sv
+  ((sv.set (txt "previous-sequence-start-index") (.int (p.1 - 1))).set
+    (txt "previous-sequence-end-index") (.int (p.2.1 - 1))).set
+    (txt "previous-sequence-size") (.int (p.2.1 + 1 - p.1))
+
+/-- the next batch: `opt(end + 1 - overlap, 0, size, orphan, sequence)` -/
+def nextInfo (sv : SeqVars) (w : BWin) (flag : Bool) : SeqVars :=
+  let n := Batch.opt (w.stop + 1 - w.overlap) 0 w.sz w.orphan ⟨sv.items.length, false⟩
+  let sv := if flag then sv.set (txt "next-sequence") (.int 1) else sv
+  ((sv.set (txt "next-sequence-start-index") (.int (n.1 - 1))).set
+    (txt "next-sequence-end-index") (.int (n.2.1 - 1))).set
+    (txt "next-sequence-size") (.int (n.2.1 + 1 - n.1))
+
+/-- are there elements after the window?  (`sequence[end]` succeeds) -/
+def moreAfter (sv : SeqVars) (w : BWin) : Bool := decide (w.stop < sv.items.length)
+
+/-- the batching information provided on the first and on the last displayed element -/
+def batchInfo (sv : SeqVars) (w : BWin) (i : Nat) : SeqVars :=
+  let sv := if w.first > 0 then prevInfo sv w (i == w.first) else sv
+  if moreAfter sv w then nextInfo sv w (i + 1 == w.stop) else sv
+
+/-- the variables at the start of iteration `i` of a batched loop -/
+def batchStep (sv : SeqVars) (w : BWin) (i : Nat) : SeqVars :=
+  let sv := (sv.set (txt "previous-sequence") (.int 0)).set (txt "next-sequence") (.int 0)
+  let sv := if i == w.first || i + 1 == w.stop then batchInfo sv w i else sv
+  if i + 1 == w.stop then { sv with ended := true } else sv
+
+/-- `sequence-start` is cleared once the first element of the window has been rendered (or skipped) -/
+def afterItem (sv : SeqVars) (w : BWin) (i : Nat) : SeqVars :=
+  if i == w.first then { sv with started := false } else sv
+
 /-! ### the interpreter -/
 
 /-- what a probe sees of a frame: its kind, the keys of a dictionary, the id of an instance -/
@@ -516,6 +757,7 @@ def getitem (env : Env) : Nat → Text → Bool → St → Res Val × St
         | .tmpl id => callSub env fuel id st
         | v => (.ok v, st)
       else (.ok v, st)
+termination_by structural fuel => fuel
 
 /-- a template invoked by name from another template: `e(None, md)` -/
 def callSub (env : Env) : Nat → Nat → St → Res Val × St
@@ -543,6 +785,7 @@ def callSub (env : Env) : Nat → Nat → St → Res Val × St
         | .ret v => (.ok v, st3)
         | .raise e => (.raise e, st3)
         | .oom => (.oom, st3)
+termination_by structural fuel => fuel
 
 def evalExpr (env : Env) : Nat → Expr → St → Res Val × St
   | 0, _, st => (.oom, st)
@@ -597,12 +840,14 @@ def evalExpr (env : Env) : Nat → Expr → St → Res Val × St
           | _ => (.raise ⟨"TypeError".toList, []⟩, st'))
        | (.ok _, st') => (.raise ⟨"TypeError".toList, []⟩, st')
        | r => r)
+termination_by structural fuel => fuel
 
 /-- value of a tag's `name` / `expr`: names are looked up with auto-call -/
 def evalSrc (env : Env) : Nat → Src → St → Res Val × St
   | 0, _, st => (.oom, st)
   | fuel + 1, .name n, st => getitem env fuel n true st
   | fuel + 1, .expr e, st => evalExpr env fuel e st
+termination_by structural fuel => fuel
 
 /-- dtml-var: obtain the value (`md[name]` calls callables / renders templates; an expression is evaluated) and insert it -/
 def fetchVar (env : Env) : Nat → Src → Bool → Option Text → St → Res (List Piece) × St
@@ -613,6 +858,7 @@ def fetchVar (env : Env) : Nat → Src → Bool → Option Text → St → Res (
     | (.raise e, st') => (.raise e, st')
     | (.ret v, st') => (.ret v, st')
     | (.oom, st') => (.oom, st')
+termination_by structural fuel => fuel
 
 /-- render the blocks in order, collecting the non-empty pieces -/
 def renderBlocks (env : Env) : Nat → List Blk → St → Res (List Piece) × St
@@ -627,6 +873,7 @@ def renderBlocks (env : Env) : Nat → List Blk → St → Res (List Piece) × S
     | (.raise e, st1) => (.raise e, st1)
     | (.ret v, st1) => (.ret v, st1)
     | (.oom, st1) => (.oom, st1)
+termination_by structural fuel => fuel
 
 /-- body of a block with one more frame on the namespace; the frame is popped on every exit path -/
 def withFrame (env : Env) : Nat → Frame → List Blk → St → Res (List Piece) × St
@@ -634,6 +881,7 @@ def withFrame (env : Env) : Nat → Frame → List Blk → St → Res (List Piec
   | fuel + 1, f, body, st =>
     let (r, st') := renderBlocks env fuel body { st with stack := f :: st.stack }
     (r, { st' with stack := st'.stack.drop 1 })
+termination_by structural fuel => fuel
 
 /-- render a body and join it into one piece (what a tag object returns) -/
 def renderJoined (env : Env) : Nat → List Blk → St → Res Piece × St
@@ -641,6 +889,7 @@ def renderJoined (env : Env) : Nat → List Blk → St → Res Piece × St
   | fuel + 1, body, st =>
     let (r, st') := renderBlocks env fuel body st
     joinRes env r st'
+termination_by structural fuel => fuel
 
 /-- a body rendered inside one more frame, joined -/
 def framed (env : Env) : Nat → Frame → List Blk → St → Res Piece × St
@@ -648,6 +897,7 @@ def framed (env : Env) : Nat → Frame → List Blk → St → Res Piece × St
   | fuel + 1, f, body, st =>
     let (r, st') := withFrame env fuel f body st
     joinRes env r st'
+termination_by structural fuel => fuel
 
 /-- the `'i'` block: conditions in order inside the cache frame (already pushed: top of stack) -/
 def condLoop (env : Env) : Nat → List (Src × List Blk) → Option (List Blk) → St → Res (List Piece) × St
@@ -678,6 +928,7 @@ def condLoop (env : Env) : Nat → List (Src × List Blk) → Option (List Blk) 
        | (.raise e, st') => (.raise e, st')
        | (.ret v, st') => (.ret v, st')
        | (.oom, st') => (.oom, st'))
+termination_by structural fuel => fuel
 
 /-- does the item guard refuse element `i`? (only asked when a guard is installed) -/
 def itemDenied (env : Env) (sv : SeqVars) (i : Nat) : Bool :=
@@ -704,6 +955,7 @@ def inIter (env : Env) : Nat → SeqVars → InOpts → List Blk → Nat → St 
       framed env fuel (match client with | .dict kvs => Frame.dict kvs | _ => Frame.bad) body st
     else if isStr then renderJoined env fuel body st
     else framed env fuel (.inst client []) body st
+termination_by structural fuel => fuel
 
 /-- the iterations of an unbatched dtml-in (renderwob), items `i ..` -/
 def inLoop (env : Env) : Nat → SeqVars → InOpts → List Blk → Nat → St → Res (List Piece) × St
@@ -730,6 +982,71 @@ def inLoop (env : Env) : Nat → SeqVars → InOpts → List Blk → Nat → St 
       | (.raise e, st2) => (.raise e, st2)
       | (.ret v, st2) => (.ret v, st2)
       | (.oom, st2) => (.oom, st2)
+termination_by structural fuel => fuel
+
+/-- the iterations of a batched dtml-in (`renderwb`, loop mode): elements `i ..` of the window.  The sequence
+variables are one dictionary that the loop keeps updating, so they are carried from one iteration to the next -/
+def inLoopB (env : Env) : Nat → SeqVars → InOpts → BWin → List Blk → Nat → St → Res (List Piece) × St
+  | 0, _, _, _, _, _, st => (.oom, st)
+  | fuel + 1, sv, o, w, body, i, st =>
+    if i ≥ w.stop then (.ok [], st)
+    else
+      let sv1 := batchStep sv w i
+      let st := if env.guardOn then { st with trace := st.trace ++ [.gitem 0 i] } else st
+      if itemDenied env sv1 i then
+        if o.skipUnauth then inLoopB env fuel (afterItem sv1 w i) o w body (i + 1) st
+        else (.raise ⟨"Unauthorized".toList, "item".toList⟩, st)
+      else
+      let sv2 := { sv1 with index := i }
+      let st1 := match st.stack with
+        | .seq _ :: fs => { st with stack := .seq sv2 :: fs }
+        | _ => st
+      match inIter env fuel sv2 o body i st1 with
+      | (.ok p, st2) =>
+        (match inLoopB env fuel (afterItem sv2 w i) o w body (i + 1) st2 with
+         | (.ok ps, st3) => (.ok (p :: ps), st3)
+         | r => r)
+      | (.raise e, st2) => (.raise e, st2)
+      | (.ret v, st2) => (.ret v, st2)
+      | (.oom, st2) => (.oom, st2)
+termination_by structural fuel => fuel
+
+/-- a batched rendering (`renderwb` from the point where the variables are pushed): the frame of the sequence
+variables (on top of the cache of a named sequence) is pushed; then either the section is rendered once for the previous
+/ next batch (`previous` / `next` attribute; the else part when there is no such batch), or the elements of the window
+are rendered in turn and joined; the pushed frames are popped on every path -/
+def inBatch (env : Env) : Nat → SeqVars → InOpts → BatchP → BWin → List Blk → Option (List Blk) → List Frame → St →
+    Res Piece × St
+  | 0, _, _, _, _, _, _, _, st => (.oom, st)
+  | fuel + 1, sv0, o, bp, w, body, els, cache, st =>
+    let svN := { sv0 with noIndex := true }
+    let res : Res Piece × St :=
+      if bp.previous then
+        (if w.first > 0 then
+           renderJoined env fuel body { st with stack := (Frame.seq (prevInfo svN w true) :: cache) ++ st.stack }
+         else
+           (match els with
+            | some e => renderJoined env fuel e { st with stack := (Frame.seq svN :: cache) ++ st.stack }
+            | none => (.ok (.text []), { st with stack := (Frame.seq svN :: cache) ++ st.stack })))
+      else if bp.next then
+        (if moreAfter sv0 w then
+           renderJoined env fuel body { st with stack := (Frame.seq (nextInfo svN w true) :: cache) ++ st.stack }
+         else
+           (match els with
+            | some e => renderJoined env fuel e { st with stack := (Frame.seq svN :: cache) ++ st.stack }
+            | none => (.ok (.text []), { st with stack := (Frame.seq svN :: cache) ++ st.stack })))
+      else
+        (match inLoopB env fuel sv0 o w body w.first { st with stack := (Frame.seq sv0 :: cache) ++ st.stack } with
+         | (.ok ps, s) =>
+           (match joinUnicode env ps with
+            | .ok p => (.ok p, s)
+            | .raise e => (.raise e, s)
+            | _ => (.oom, s))
+         | (.raise e, s) => (.raise e, s)
+         | (.ret x, s) => (.ret x, s)
+         | (.oom, s) => (.oom, s))
+    (res.1, { res.2 with stack := res.2.stack.drop (cache.length + 1) })
+termination_by structural fuel => fuel
 
 /-- the class a dtml-raise raises: by name (unknown names give RuntimeError), or by expression -/
 def raiseClass (env : Env) : Nat → Text → Option Expr → St → Option Text × St
@@ -743,6 +1060,7 @@ def raiseClass (env : Env) : Nat → Text → Option Expr → St → Option Text
        | (.ok (.str c), st') => (some c, st')
        | (.oom, st') => (none, st')
        | (_, st') => (some "InvalidErrorTypeExpression".toList, st'))
+termination_by structural fuel => fuel
 
 def renderBlk (env : Env) : Nat → Blk → St → Res (List Piece) × St
   | 0, _, st => (.oom, st)
@@ -812,6 +1130,54 @@ def renderBlk (env : Env) : Nat → Blk → St → Res (List Piece) × St
              | .raise e => (.raise e, st3)
              | .ret x => (.ret x, st3)
              | .oom => (.oom, st3)))
+       | (.raise e, st') => (.raise e, st')
+       | (.ret v, st') => (.ret v, st')
+       | (.oom, st') => (.oom, st'))
+    | .inx_ src o x body els =>
+      (match evalSrc env fuel src st with
+       | (.ok v, st') =>
+         let items : Option (List Val) := match v with
+           | .list xs => some xs
+           | .tuple xs => some xs
+           | .dict kvs => some (kvs.map fun kv => Val.str kv.1)
+           | _ => none
+         (match items with
+          | none =>
+            (match v with
+             | .str _ => (.raise ⟨"ValueError".toList, "Strings are not allowed as input to the in tag.".toList⟩, st')
+             | _ => (.raise ⟨"TypeError".toList, []⟩, st'))
+          | some [] =>
+            (match els with
+             | some e => oneRes (renderJoined env fuel e st')
+             | none => (.ok [], st'))
+          | some xs =>
+            -- sort_sequence / reverse_sequence work on a list of their own; the cache keeps the sequence as it was found
+            (match arrange env o x xs st' with
+             | (.ok ys, st1) =>
+               let sv : SeqVars := { items := ys, mapping := o.mapping, prefix_ := o.prefix_ }
+               let cache : List Frame := cacheOf src v
+               (match x.batch with
+                | none =>
+                  let (r, st2) := inLoop env fuel sv o body 0 { st1 with stack := (Frame.seq sv :: cache) ++ st1.stack }
+                  let st3 := { st2 with stack := st2.stack.drop (Frame.seq sv :: cache).length }
+                  (match r with
+                   | .ok ps =>
+                     (match joinUnicode env ps with
+                      | .ok p => (.ok (one p), st3)
+                      | .raise e => (.raise e, st3)
+                      | _ => (.oom, st3))
+                   | .raise e => (.raise e, st3)
+                   | .ret x => (.ret x, st3)
+                   | .oom => (.oom, st3))
+                | some bp =>
+                  let w := bwinOf bp ys.length
+                  -- `md['QUERY_STRING']` inside try/except: whatever it does is swallowed (its events stay)
+                  (match getitem env fuel (txt "QUERY_STRING") true st1 with
+                   | (.oom, st2) => (.oom, st2)
+                   | (_, st2) => oneRes (inBatch env fuel (batchInit sv w) o bp w body els cache st2)))
+             | (.raise e, st1) => (.raise e, st1)
+             | (.ret x, st1) => (.ret x, st1)
+             | (.oom, st1) => (.oom, st1)))
        | (.raise e, st') => (.raise e, st')
        | (.ret v, st') => (.ret v, st')
        | (.oom, st') => (.oom, st'))
@@ -887,6 +1253,7 @@ def renderBlk (env : Env) : Nat → Blk → St → Res (List Piece) × St
             let ns : Val := .obj 0 [("error_type".toList, .str ex.cls), ("error_value".toList, .exc ex.cls msg),
                                    ("error_tb".toList, .str "traceback".toList)]
             oneRes (framed env fuel (.inst ns []) h st1)))
+termination_by structural fuel => fuel
 
 /-- dtml-let: bindings are evaluated in order into the (already pushed) dictionary, then the body -/
 def letLoop (env : Env) : Nat → List (Text × Src) → List Blk → St → Res (List Piece) × St
@@ -902,6 +1269,7 @@ def letLoop (env : Env) : Nat → List (Text × Src) → List Blk → St → Res
     | (.raise e, st') => (.raise e, st')
     | (.ret v, st') => (.ret v, st')
     | (.oom, st') => (.oom, st')
+termination_by structural fuel => fuel
 
 end
 
